@@ -115,6 +115,7 @@ type World struct {
 	pkgs      []*packages.Package
 	files     []*HarnessFile
 	overrides map[string]*ssa.Function
+	ovByDir   map[string]map[string]*ssa.Function // overrides declared by the harness files of one directory
 	icache    sync.Map
 	ssaPkgs   map[string]*ssa.Package // by dir
 	known     *KnownFindings
@@ -184,9 +185,14 @@ var skipInitPkgs = map[string]bool{
 }
 
 func (s *Session) applyNoOverride(ob *Obligation) {
+	base := s.w.overrides
+	if len(s.w.ovByDir) > 1 {
+		base = s.w.ovByDir[ob.Dir]
+		s.overrides = base
+	}
 	if len(ob.NoOverride) > 0 {
 		s.overrides = map[string]*ssa.Function{}
-		for t, f := range s.w.overrides {
+		for t, f := range base {
 			if !ob.NoOverride[f.Name()] {
 				s.overrides[t] = f
 			}
@@ -450,6 +456,16 @@ func loadWorld(files []*HarnessFile) (*World, error) {
 				return nil, fmt.Errorf("override stub %s not found in %s", stub, hf.Dir)
 			}
 			w.overrides[target] = f
+			// the same target may be overridden by the harness files of several
+			// packages (each with its own stub and its own state): an obligation
+			// uses the overrides declared in its own directory
+			if w.ovByDir == nil {
+				w.ovByDir = map[string]map[string]*ssa.Function{}
+			}
+			if w.ovByDir[hf.Dir] == nil {
+				w.ovByDir[hf.Dir] = map[string]*ssa.Function{}
+			}
+			w.ovByDir[hf.Dir][target] = f
 		}
 	}
 	w.loadTime = time.Since(t0)
